@@ -72,6 +72,7 @@ class Res:
         self.tcount = 0  # transitions distinct by construction, counted instead of stored
         self.traces = 0
         self.notes = []
+        self.sets = {}  # name -> set, merged by union (module-specific bookkeeping)
 
     # -- recording -------------------------------------------------------
     def case(self, key=None, nontrivial=True, n=1):
@@ -100,6 +101,9 @@ class Res:
                 }
             )
 
+    def add(self, name, item):
+        self.sets.setdefault(name, set()).add(item)
+
     def state(self, s):
         self.states.add(s if isinstance(s, int) else khash(s))
 
@@ -126,6 +130,8 @@ class Res:
         self.kcount += other.kcount
         self.traces += other.traces
         self.notes.extend(n for n in other.notes if n not in self.notes)
+        for k, v in other.sets.items():
+            self.sets.setdefault(k, set()).update(v)
 
 
 # ---------------------------------------------------------------------------
